@@ -11,7 +11,7 @@
 From Coq Require Import List String Bool Floats NArith.
 From PintV Require Import Common.Bytes Gen.C04 Model.PromQL Model.Source Model.PromSem Model.PromFrag Model.PromAlways
   Proofs.C04_lists Proofs.C04_transfer Proofs.C04_walk Proofs.C04_sound Proofs.C04_calls Proofs.C04_binops Proofs.C04_main
-  Proofs.C12_musthave Proofs.C12_join Proofs.C12_always Proofs.C12_static Proofs.C12_witness Proofs.C12_flag.
+  Proofs.C12_musthave Proofs.C12_join Proofs.C12_always Proofs.C12_static Proofs.C12_witness Proofs.C12_flag Proofs.C12_k3.
 Import ListNotations.
 Open Scope string_scope.
 Open Scope list_scope.
@@ -48,6 +48,54 @@ Proof.
   - intros Hun. exact (join_returns_nothing fmod fpow U db Ht op rb vm l r Cl Cr R Hwf Hor Hun HSl HSr Hfl Hb).
 Qed.
 Print Assumptions C12_join_partial.
+
+(** (1') The same clause with the analyser's OWN verdict instead of the verified guard.  On the syntactic complement
+    of known finding K3 ([k3_free]: selectors, matrix/subquery/paren/unary, by/without aggregations, topk/bottomk,
+    vector/scalar operations -- no call, no vector/vector operation, no count_values) a label the analyser
+    believes a result branch can have is a label every series of every result carries ([C12_can_have_must_have]).
+    So for joins without on() and without group labels whose driving side is [k3_free], it suffices that canJoin flags
+    every pair on a stored label: the guard [must_have] is discharged ([C12_join_analyser]).  The known-finding class
+    K3 of the harness is "not must_have AND one of the four K3 mechanisms present"; this theorem covers the
+    mechanism-free side of it by proof. *)
+Theorem C12_can_have_must_have : forall fmod fpow U e s l,
+  k3_free e = true -> In s (walk_node fmod fpow e) -> In l U -> l <> metric_name ->
+  can_have_label s l = true -> must_have U e l = true.
+Proof.
+  intros fmod fpow U e s l Hk Hin HU Hn Hc.
+  destruct (analyser_can_have_must fmod fpow U e Hk) as [_ H]. exact (H s l Hin HU Hn Hc).
+Qed.
+Print Assumptions C12_can_have_must_have.
+
+Theorem C12_join_analyser : forall fmod fpow U db op rb vm l r Cl Cr R,
+  db_total U db ->
+  wf (EBin op rb (Some vm) l r) = true -> op <> OOr ->
+  vm_on vm = false -> vm_include vm = [] ->
+  k3_free (match vm_card vm with OneToMany => r | _ => l end) = true ->
+  Sem db l (RVec Cl) -> Sem db r (RVec Cr) ->
+  (forall s0 rs,
+     In s0 (walk_node fmod fpow (match vm_card vm with OneToMany => r | _ => l end)) ->
+     In rs (walk_node fmod fpow (match vm_card vm with OneToMany => l | _ => r end)) ->
+     exists n, can_join (join_view vm s0) rs vm = Some n /\ In n U /\ n <> metric_name) ->
+  local db (EBin op rb (Some vm) l r) [RVec Cl; RVec Cr] (RVec R) = Some true ->
+  local db (EBin op rb (Some vm) l r)
+        [RVec (match vm_card vm with OneToMany => [] | _ => Cl end);
+         RVec (match vm_card vm with OneToMany => Cr | _ => [] end)] (RVec R) = Some true
+  /\ (op <> OUnless -> R = []).
+Proof.
+  intros fmod fpow U db op rb vm l r Cl Cr R Ht Hwf Hor Hon Hinc Hk HSl HSr Hfl Hloc.
+  apply (C12_join_partial fmod fpow U db op rb vm l r Cl Cr R Ht Hwf Hor HSl HSr); [|exact Hloc].
+  assert (Hall : forall many other,
+            k3_free many = true ->
+            (forall s0 rs, In s0 (walk_node fmod fpow many) -> In rs (walk_node fmod fpow other) ->
+               exists n, can_join (join_view vm s0) rs vm = Some n /\ In n U /\ n <> metric_name) ->
+            all_flagged fmod fpow U vm many other).
+  { intros many other Hkm H s0 rs H0 Hrs. destruct (H s0 rs H0 Hrs) as [n [Hj [HU Hn]]].
+    exists n. split; [exact Hj|]. split; [|right; exact Hn].
+    apply (C12_can_have_must_have fmod fpow U many s0 n Hkm H0 HU Hn).
+    apply (join_view_can_have vm s0 n Hon Hinc). exact (can_join_some_can_have _ _ _ _ Hj). }
+  destruct (vm_card vm); apply Hall; assumption.
+Qed.
+Print Assumptions C12_join_analyser.
 
 (** the join entries the analyser appends at a node are exactly the [can_join] verdicts (dead iff [Some _]) *)
 Theorem C12_join_flags : forall vm others s,
@@ -272,4 +320,22 @@ Proof.
     + split; vm_compute; reflexivity.
   - repeat split; vm_compute; reflexivity.
   - repeat split; vm_compute; reflexivity.
+Qed.
+
+(** the premises of [C12_join_analyser] are satisfiable: [foo{a="1"} and sum without(a) (bar)] (default matching):
+    the driving side is a selector ([k3_free]), canJoin flags the only pair on the stored label "a". *)
+Definition ja_l : expr := ESel [{| m_type := MEq; m_name := "a"; m_value := "1" |}; {| m_type := MEq; m_name := "__name__"; m_value := "foo" |}].
+Definition ja_r : expr := EAgg ASum true ["a"] None (ESel [{| m_type := MEq; m_name := "__name__"; m_value := "bar" |}]).
+Definition ja_vm : vmatch := {| vm_card := ManyToMany; vm_on := false; vm_labels := []; vm_include := [] |}.
+
+Example C12_join_analyser_nonvacuous :
+  wf (EBin OAnd false (Some ja_vm) ja_l ja_r) = true /\ k3_free ja_l = true /\
+  (forall s0 rs, In s0 (walk0 ja_l) -> In rs (walk0 ja_r) ->
+     exists n, can_join (join_view ja_vm s0) rs ja_vm = Some n /\ In n U5 /\ n <> metric_name) /\
+  (exists s, walk0 (EBin OAnd false (Some ja_vm) ja_l ja_r) = [s] /\ map s_dead (s_joins s) = [true]).
+Proof.
+  split; [reflexivity|]. split; [reflexivity|]. split.
+  - intros s0 rs H1 H2. vm_compute in H1, H2. destruct H1 as [<-|[]]. destruct H2 as [<-|[]].
+    exists "a". split; [vm_compute; reflexivity|]. split; [right; left; reflexivity | discriminate].
+  - eexists. split; vm_compute; reflexivity.
 Qed.
